@@ -487,3 +487,20 @@ Proof.
   - intros i Hi. apply pow2_next_is. exact Hi.
   - apply rep_empty. exact Hn.
 Qed.
+
+(* the abstract map run depends on the capacity only through the exception *)
+Lemma arun_capacity_irrelevant : forall ops n1 n2 m,
+  ~ In RThrow (arun n1 m ops) -> ~ In RThrow (arun n2 m ops) -> arun n1 m ops = arun n2 m ops.
+Proof.
+  induction ops as [|o ops IH]; intros n1 n2 m H1 H2; [reflexivity|].
+  destruct o as [k|k v|k v]; cbn [arun] in *.
+  - f_equal. apply IH; intros H; [apply H1|apply H2]; right; exact H.
+  - destruct (alookup m k).
+    + f_equal. apply IH; intros H; [apply H1|apply H2]; right; exact H.
+    + destruct (Z.of_nat (length m) + 1 >=? Z.of_nat n1)%Z; [exfalso; apply H1; left; reflexivity|].
+      destruct (Z.of_nat (length m) + 1 >=? Z.of_nat n2)%Z; [exfalso; apply H2; left; reflexivity|].
+      f_equal. apply IH; intros H; [apply H1|apply H2]; right; exact H.
+  - destruct (Z.of_nat (length m) + 1 >=? Z.of_nat n1)%Z; [exfalso; apply H1; left; reflexivity|].
+    destruct (Z.of_nat (length m) + 1 >=? Z.of_nat n2)%Z; [exfalso; apply H2; left; reflexivity|].
+    f_equal. apply IH; intros H; [apply H1|apply H2]; right; exact H.
+Qed.
